@@ -444,6 +444,7 @@ class ConcurrentExecutor(ABC, Generic[CallableType, ResultType]):
         def run_in_child_handler():
             return self.execute_item(child_context, executable)
 
+        child_context.state.track_replay(operation_id=operation_id)
         result: ResultType = child_handler(
             run_in_child_handler,
             child_context.state,
@@ -456,7 +457,6 @@ class ConcurrentExecutor(ABC, Generic[CallableType, ResultType]):
                 sub_type=self.sub_type_iteration,
             ),
         )
-        child_context.state.track_replay(operation_id=operation_id)
         return result
 
     def replay(self, execution_state: ExecutionState, executor_context: DurableContext):
